@@ -95,7 +95,11 @@ def _poll_filter_drops(ctx, prog, R, poll):
         ctx.check(isinstance(a, ast.Constant) and a.value is False, poll, c, "poll step passes projection = False", f"the poll step asks the filter to project out-of-box candidates onto the box (flag {canon(a) if a is not None else 'default'}): projected points are not on the poll stencil", construct="poll filter projection flag")
     for st in fs.stages:
         if st.kind == "box-clamp":
-            tests = [(t, pol) for t, pol in guard_of(prog, fs.fn, st.stmt)]
+            tests = []
+            for t, pol in guard_of(prog, fs.fn, st.stmt):
+                while isinstance(t, ast.UnaryOp) and isinstance(t.op, ast.Not):
+                    t, pol = t.operand, not pol  # else-branch of ``if not proj``
+                tests.append((t, pol))
             exact = len(tests) == 1 and tests[0][1] and canon(tests[0][0]) == fs.p_proj
             ctx.check(exact, fs.fn, st.stmt, f"projection executed iff {fs.p_proj}", f"the filter projects candidates onto the box under '{' and '.join(canon(t, neg=not p_) for t, p_ in tests) or 'no guard'}', not exactly when its projection flag is set: poll candidates beyond a bound are moved onto it (and evaluated off the stencil) instead of being dropped", construct="filter projection guard")
 
